@@ -186,7 +186,13 @@ pub fn construct_scenarios() -> Vec<J> {
     for n in [0usize, 1, 31, 32, 33, 63, 64, 65, 128, 129, 200] {
         for what in ["md_bytes", "asset_name", "plutus_bytes"] { v.push(json!({"kind": "construct", "what": what, "s": jbytes(&vec![7u8; n])})); }
     }
-    for st in ["0", "-1", "18446744073709551615", "18446744073709551616", "-18446744073709551616", "-18446744073709551617", "340282366920938463463374607431768211456", "-340282366920938463463374607431768211457"] {
+    for st in ["0", "-1", "18446744073709551615", "18446744073709551616", "-18446744073709551616", "-18446744073709551617", "340282366920938463463374607431768211456", "-340282366920938463463374607431768211457",
+               // magnitudes that need 64 / 65 bytes (the chunking boundary of bounded bytes), both signs
+               "13407807929942597099574024998205846127479365820592393377723561443721764030073546976801874298166903427690031858186486050853753882811946569946433649006084095",
+               "13407807929942597099574024998205846127479365820592393377723561443721764030073546976801874298166903427690031858186486050853753882811946569946433649006084096",
+               "-13407807929942597099574024998205846127479365820592393377723561443721764030073546976801874298166903427690031858186486050853753882811946569946433649006084096",
+               "-13407807929942597099574024998205846127479365820592393377723561443721764030073546976801874298166903427690031858186486050853753882811946569946433649006084097",
+               "-3432398830065304857490950399540696608634717650071652704697231729592771591698828026061279820330727277488648155695740429018560993999858321906287014145557528576"] {
         v.push(json!({"kind": "construct", "what": "plutus_int", "s": jtext(st)}));
     }
     for n in [1u64, 23, 24, u64::MAX] { v.push(json!({"kind": "construct", "what": "donation", "n": jn(n)})); }
